@@ -13,8 +13,16 @@
      FLost       the request took effect on the store but the client saw a retryable ClientError.
    Clients execute one primitive per SStep (yield points of harness/lib/coop.py: every S3 request,
    time.time, datetime.now, time.sleep); the heartbeat thread is the event SRenew (one _renew_once).
-   Time is in milliseconds. *)
+   Time is in milliseconds.
+
+   Environment (event SEnv, may change at any moment of a run: TZ / tzset / a DST switch; a different
+   endpoint or client library): `zone` = the process's local UTC offset; `lmrep` = how the head reply's
+   LastModified is rendered as a datetime object (aware at some utcoffset, or naive).  The reply keeps the
+   rendering it was built with (QAge's third argument).  The age test is the kernel regenerated from
+   _try_takeover_expired (Gen/GenLockAge.v: takeover_age over Model/PyTime.v, takeover_keeps); an
+   expression that raises (aware minus naive: TypeError) ends acquire() with that exception. *)
 From Coq Require Import ZArith NArith List Bool.
+Require Import DS.Model.PyTime DS.Gen.GenLockAge.
 Import ListNotations.
 Open Scope Z_scope.
 
@@ -31,7 +39,7 @@ Inductive spc :=
 | QStart                      (* acquire(): start_time = time.time() *)
 | QCreate                     (* _try_acquire: put_object(IfNoneMatch=star) *)
 | QHead                       (* _try_takeover_expired: head_object *)
-| QAge (l : Z) (e : N)        (* age = datetime.now(utc) - LastModified; if age <= lease: return False *)
+| QAge (l : Z) (e : N) (r : option Z)  (* age = datetime.now(utc) - LastModified (rendered by r); if age <= lease: return False *)
 | QTake (l : Z) (e : N)       (* put_object(IfMatch=etag) *)
 | QTimeChk                    (* if time.time() - start_time >= timeout: raise TimeoutError *)
 | QSleep (until : Z)          (* time.sleep(random.uniform(0.3, 0.9)) *)
@@ -139,39 +147,44 @@ Inductive sobs :=
 | SOSleep (c : N) (t : Z)
 | SOReq (c : N) (k : reqk) (r : rrep)
 | SODie
-| SOTick.
+| SOTick
+| SOEnv.
 
 Record sstate := {
   obj : option lobj;
   next_etag : N;
   snow : Z;
+  zone : Z;               (* local UTC offset of the process (ms, east positive) *)
+  lmrep : option Z;       (* rendering of LastModified in head replies: Some off = aware, None = naive *)
   scl : N -> sclient;
   late_delete : bool;    (* ghost: some release's DELETE landed after the releaser's own lease had lapsed *)
   strace : list (sobs * sres)
 }.
 
 Definition sinit : sstate :=
-  {| obj := None; next_etag := 0%N; snow := 0; scl := fun _ => sclient0; late_delete := false; strace := [] |}.
+  {| obj := None; next_etag := 0%N; snow := 0; zone := 0; lmrep := Some 0; scl := fun _ => sclient0;
+     late_delete := false; strace := [] |}.
 
 Inductive sevent :=
 | SCall (c : N) (k : scall)
 | SStep (c : N) (f : fault) (jitter : Z)
 | SRenew (c : N) (f : fault)
 | STick (d : Z)
-| SDie (c : N).
+| SDie (c : N)
+| SEnv (z : Z) (r : option Z).
 
 Definition s_set (s : sstate) (o : option lobj) (ne : N) (t : Z) (c : N) (x : sclient) (ld : bool)
            (ob : sobs) (r : sres) : sstate :=
-  {| obj := o; next_etag := ne; snow := t; scl := updN (scl s) c x; late_delete := ld;
-     strace := (ob, r) :: strace s |}.
+  {| obj := o; next_etag := ne; snow := t; zone := zone s; lmrep := lmrep s; scl := updN (scl s) c x;
+     late_delete := ld; strace := (ob, r) :: strace s |}.
 
 (* client-only change *)
 Definition s_cl (s : sstate) (c : N) (x : sclient) (ob : sobs) (r : sres) : sstate :=
   s_set s (obj s) (next_etag s) (snow s) c x (late_delete s) ob r.
 
 Definition s_log (s : sstate) (ob : sobs) : sstate :=
-  {| obj := obj s; next_etag := next_etag s; snow := snow s; scl := scl s; late_delete := late_delete s;
-     strace := (ob, SNone) :: strace s |}.
+  {| obj := obj s; next_etag := next_etag s; snow := snow s; zone := zone s; lmrep := lmrep s; scl := scl s;
+     late_delete := late_delete s; strace := (ob, SNone) :: strace s |}.
 
 Definition fresh_obj (s : sstate) (c : N) : lobj := {| owner := c; etag := next_etag s; lm := snow s |}.
 
@@ -185,8 +198,10 @@ Definition in_release (p : spc) : bool := match p with QRelGet | QRelDel => true
 
 Definition sstep (cd : bool) (lease rsleep : Z) (s : sstate) (ev : sevent) : sstate :=
   match ev with
-  | STick d => s_log {| obj := obj s; next_etag := next_etag s; snow := snow s + Z.max 0 d; scl := scl s;
-                        late_delete := late_delete s; strace := strace s |} SOTick
+  | STick d => s_log {| obj := obj s; next_etag := next_etag s; snow := snow s + Z.max 0 d; zone := zone s;
+                        lmrep := lmrep s; scl := scl s; late_delete := late_delete s; strace := strace s |} SOTick
+  | SEnv z r => s_log {| obj := obj s; next_etag := next_etag s; snow := snow s; zone := z; lmrep := r;
+                         scl := scl s; late_delete := late_delete s; strace := strace s |} SOEnv
   | SDie c => s_cl s c (q_dead (scl s c)) SODie SNone
   | SCall c k =>
     let x := scl s c in
@@ -254,15 +269,19 @@ Definition sstep (cd : bool) (lease rsleep : Z) (s : sstate) (ev : sevent) : sst
         match f with
         | FNone =>
           match obj s with
-          | Some o => s_cl s c (q_pc x (QAge (lm o) (etag o))) (SOReq c KHead (RpHead (lm o) (etag o))) SNone
+          | Some o => s_cl s c (q_pc x (QAge (lm o) (etag o) (lmrep s))) (SOReq c KHead (RpHead (lm o) (etag o))) SNone
           | None => s_cl s c (q_pc x QTimeChk) (SOReq c KHead RpMissing) SNone
           end
         | _ => s_cl s c (q_pc x QTimeChk) (SOReq c KHead (RpErr f)) SNone
         end
-      | QAge l e =>
-        if snow s - l <=? lease
-        then s_cl s c (q_pc x QTimeChk) (SOTime c (snow s)) SNone
-        else s_cl s c (q_pc x (QTake l e)) (SOTime c (snow s)) SNone
+      | QAge l e r =>
+        match takeover_age (zone s) (snow s) (dt_render r l) lease with
+        | Some age =>
+          if takeover_keeps age lease
+          then s_cl s c (q_pc x QTimeChk) (SOTime c (snow s)) SNone
+          else s_cl s c (q_pc x (QTake l e)) (SOTime c (snow s)) SNone
+        | None => s_cl s c (q_ret x SRaised) (SOTime c (snow s)) SRaised
+        end
       | QTake l e =>
         match f with
         | FNone =>
@@ -352,3 +371,31 @@ Definition ssummary (lease : Z) (s : sstate) (cs : list N) :=
   (rev (strace s),
    map (fun c => (is_locked (scl s c), s_res (scl s c), holder_liveb lease s c)) cs,
    (match obj s with Some o => Some (owner o) | None => None end, snow s, late_delete s)).
+
+(* ---- the environment is invisible (statement of C19_s3_environment_irrelevant) ----
+   env_sim s1 s2: two states that differ at most in the process zone, in the current rendering of
+   LastModified and in the utcoffset of head replies already in clients' hands -- same lock object, same
+   ETag counter, same clock, same client records and program counters, same request / result trace. *)
+Definition is_env (ev : sevent) : bool := match ev with SEnv _ _ => true | _ => false end.
+Definition aware_ev (ev : sevent) : bool := match ev with SEnv _ None => false | _ => true end.
+Definition strip_env (evs : list sevent) : list sevent := filter (fun ev => negb (is_env ev)) evs.
+
+(* a head reply in hand: forget at which utcoffset its LastModified is written *)
+Definition pc_norm (p : spc) : spc := match p with QAge l e (Some _) => QAge l e (Some 0) | _ => p end.
+Definition cl_norm (x : sclient) : sclient := q_pc x (pc_norm (s_pc x)).
+Definition not_env_obs (p : sobs * sres) : bool := match fst p with SOEnv => false | _ => true end.
+Definition tr_norm (tr : list (sobs * sres)) : list (sobs * sres) := filter not_env_obs tr.
+
+Record env_sim (s1 s2 : sstate) : Prop := {
+  V_obj : obj s1 = obj s2;
+  V_ne : next_etag s1 = next_etag s2;
+  V_now : snow s1 = snow s2;
+  V_ld : late_delete s1 = late_delete s2;
+  V_cl : forall c, cl_norm (scl s1 c) = cl_norm (scl s2 c);
+  V_tr : tr_norm (strace s1) = tr_norm (strace s2);
+  V_r1 : lmrep s1 <> None;
+  V_r2 : lmrep s2 <> None;
+  V_p1 : forall c l e, s_pc (scl s1 c) <> QAge l e None;
+  V_p2 : forall c l e, s_pc (scl s2 c) <> QAge l e None
+}.
+
